@@ -6,7 +6,7 @@ Property theorems only.  Model: `HioModel/Timer/Model.lean` (`paceRun` = `Doist(
 operations before the run, then the real-time branch of `Doist.do`; `doRun` = the run proper from an arbitrary
 timer state).  Spec predicates: `HioModel/Timer/Spec.lean` (`realElapsed`, `neverEarlyFrom`, `losslessFrom`).
 
-Every theorem is for EVERY clock: `σ`, `clk : Clock σ` (an arbitrary state machine answering `time.time()` and reacting
+Every theorem is for every linearly ordered commutative ring `τ` of time values (`Int`, `Rat`, `Real`, …) and for EVERY clock: `σ`, `clk : Clock τ σ` (an arbitrary state machine answering `time.time()` and reacting
 to `time.sleep(d)`: steady, stalled, stepped backwards, overshooting, running out), every fuel, every number of cycles,
 every pattern of extra clock readings by the doers.  Elapsed real time between readings is the sum of the non-negative
 increments (a backward step is a clock adjustment; forward jumps are indistinguishable from elapsed time and excluded
@@ -19,6 +19,8 @@ unconditional.  The witnesses are regression cases in `harness/props/C07.py: cor
 -/
 namespace Hio.Timer
 
+variable {τ : Type} [CommRing τ] [LinearOrder τ] [IsStrictOrderedRing τ]
+
 /-- the default of `MonoTimer`'s `retro` parameter (regenerated from the source on every run) is `True`:
 the Doist's timer compensates backward clock steps -/
 theorem doist_timer_is_retro : Gen.monoRetroDefault = true := rfl
@@ -26,10 +28,10 @@ theorem doist_timer_is_retro : Gen.monoRetroDefault = true := rfl
 /-- C07 never early, from ANY timer state (whatever happened between construction and `do()`): in the log of the run,
 whenever `recur()` number `k ≥ 1` begins, the elapsed real time over all clock readings since the run's first reading
 (the one `timer.start` takes) is at least `k * tock`. -/
-theorem never_early_any_history {σ} (clk : Clock σ) (fuel : Nat) (m : Mono) (c : σ) (tock : Int) (n : Nat) (xs : List Nat)
-    (hm : m.retro = true) (r0 : Int) (pre post : List Ev) (k : Nat)
+theorem never_early_any_history {σ} (clk : Clock τ σ) (fuel : Nat) (m : Mono τ) (c : σ) (tock : τ) (n : Nat) (xs : List Nat)
+    (hm : m.retro = true) (r0 : τ) (pre post : List (Ev τ)) (k : Nat)
     (hlog : (doRun clk fuel m c tock n xs).1 = .t r0 :: (pre ++ .c k :: post)) (hk : 1 ≤ k) :
-    (k : Int) * tock ≤ realElapsed r0 (readingsOf pre) := by
+    (k : τ) * tock ≤ realElapsed r0 (readingsOf pre) := by
   have h := doRun_neverEarly clk fuel m c tock n xs hm
   rw [hlog] at h
   simpa using neverEarlyFrom_prefix tock pre post k 0 r0 h hk
@@ -37,81 +39,106 @@ theorem never_early_any_history {σ} (clk : Clock σ) (fuel : Nat) (m : Mono) (c
 /-- C07 lossless, from ANY timer state: every `time.sleep(d)` requested while waiting after cycle `k` asks for exactly the
 time left to the deadline `(k+1) * tock` counted from the start of the run in the monotone coordinates of the timer's own
 readings — lateness of earlier cycles (overshoot, stalls, steps) never moves a later deadline. -/
-theorem lossless_any_history {σ} (clk : Clock σ) (fuel : Nat) (m : Mono) (c : σ) (tock : Int) (n : Nat) (xs : List Nat)
-    (hm : m.retro = true) (r0 : Int) (pre post : List Ev) (d : Int)
+theorem lossless_any_history {σ} (clk : Clock τ σ) (fuel : Nat) (m : Mono τ) (c : σ) (tock : τ) (n : Nat) (xs : List Nat)
+    (hm : m.retro = true) (r0 : τ) (pre post : List (Ev τ)) (d : τ)
     (hlog : (doRun clk fuel m c tock n xs).1 = .t r0 :: (pre ++ .s d :: post)) :
-    d = max 0 (((cycleOf 0 pre : Nat) : Int) * tock + tock - realElapsed r0 (timerReadingsOf pre)) := by
+    d = max 0 (((cycleOf 0 pre : Nat) : τ) * tock + tock - realElapsed r0 (timerReadingsOf pre)) := by
   have h := doRun_lossless clk fuel m c tock n xs hm
   rw [hlog] at h
   simpa using losslessFrom_prefix tock pre post d 0 r0 0 h
 
 /-- …and a cycle begins only once the timer itself has seen its deadline: `k * tock ≤` elapsed real time over the timer's
 own readings (scanning form, together with the sleep equation) -/
-theorem lossless_scan_any_history {σ} (clk : Clock σ) (fuel : Nat) (m : Mono) (c : σ) (tock : Int) (n : Nat) (xs : List Nat)
+theorem lossless_scan_any_history {σ} (clk : Clock τ σ) (fuel : Nat) (m : Mono τ) (c : σ) (tock : τ) (n : Nat) (xs : List Nat)
     (hm : m.retro = true) : Lossless tock (doRun clk fuel m c tock n xs).1 :=
   doRun_lossless clk fuel m c tock n xs hm
 
 /-- the tock the run is paced with is the tock the scheduler has when `do()` is called: the last value assigned to
 `doist.tock` after construction, else the constructor argument, else `Tymist.Tock` -/
-theorem run_tock_is_tock_at_start {σ} (clk : Clock σ) (fuel : Nat) (c : σ) (tock0 : Option Int) (pre : List PreOp) (n : Nat)
-    (xs : List Nat) (t : Int) (h : (paceRun clk fuel c tock0 pre n xs).tock = some t) :
-    t = tockAtRun (tockOr tock0) pre := by
-  rcases paceRun_cases clk fuel c tock0 pre n xs doist_timer_is_retro with ⟨_, h0⟩ | ⟨_, _, _, h1, _⟩
+theorem run_tock_is_tock_at_start {σ} (dflt : τ) (clk : Clock τ σ) (fuel : Nat) (c : σ) (tock0 : Option τ) (pre : List (PreOp τ)) (n : Nat)
+    (xs : List Nat) (t : τ) (h : (paceRun dflt clk fuel c tock0 pre n xs).tock = some t) :
+    t = tockAtRun (tockOr dflt tock0) pre := by
+  rcases paceRun_cases dflt clk fuel c tock0 pre n xs doist_timer_is_retro with ⟨_, h0⟩ | ⟨_, _, _, h1, _⟩
   · rw [h0] at h; cases h
   · rw [h1] at h; injection h with h; exact h.symm
 
 /-- C07 never early for a scheduler as built by `Doist(real=True, tock=tock0)` and used in any way before the run
 (timer peeked at, tock reassigned, clock stepped in between): unconditional. -/
-theorem never_early {σ} (clk : Clock σ) (fuel : Nat) (c : σ) (tock0 : Option Int) (ops : List PreOp) (n : Nat) (xs : List Nat)
-    (r0 : Int) (pre post : List Ev) (k : Nat)
-    (hlog : (paceRun clk fuel c tock0 ops n xs).run = .t r0 :: (pre ++ .c k :: post)) (hk : 1 ≤ k) :
-    (k : Int) * tockAtRun (tockOr tock0) ops ≤ realElapsed r0 (readingsOf pre) := by
-  rcases paceRun_cases clk fuel c tock0 ops n xs doist_timer_is_retro with ⟨h0, _⟩ | ⟨m, c', hm, _, hrun⟩
+theorem never_early {σ} (dflt : τ) (clk : Clock τ σ) (fuel : Nat) (c : σ) (tock0 : Option τ) (ops : List (PreOp τ)) (n : Nat) (xs : List Nat)
+    (r0 : τ) (pre post : List (Ev τ)) (k : Nat)
+    (hlog : (paceRun dflt clk fuel c tock0 ops n xs).run = .t r0 :: (pre ++ .c k :: post)) (hk : 1 ≤ k) :
+    (k : τ) * tockAtRun (tockOr dflt tock0) ops ≤ realElapsed r0 (readingsOf pre) := by
+  rcases paceRun_cases dflt clk fuel c tock0 ops n xs doist_timer_is_retro with ⟨h0, _⟩ | ⟨m, c', hm, _, hrun⟩
   · rw [h0] at hlog; cases hlog
   · rw [hrun] at hlog
     exact never_early_any_history clk fuel m c' _ n xs hm r0 pre post k hlog hk
 
 /-- C07 lossless for a scheduler as built by `Doist(real=True, tock=tock0)`: unconditional. -/
-theorem lossless {σ} (clk : Clock σ) (fuel : Nat) (c : σ) (tock0 : Option Int) (ops : List PreOp) (n : Nat) (xs : List Nat)
-    (r0 : Int) (pre post : List Ev) (d : Int)
-    (hlog : (paceRun clk fuel c tock0 ops n xs).run = .t r0 :: (pre ++ .s d :: post)) :
-    d = max 0 (((cycleOf 0 pre : Nat) : Int) * tockAtRun (tockOr tock0) ops + tockAtRun (tockOr tock0) ops
+theorem lossless {σ} (dflt : τ) (clk : Clock τ σ) (fuel : Nat) (c : σ) (tock0 : Option τ) (ops : List (PreOp τ)) (n : Nat) (xs : List Nat)
+    (r0 : τ) (pre post : List (Ev τ)) (d : τ)
+    (hlog : (paceRun dflt clk fuel c tock0 ops n xs).run = .t r0 :: (pre ++ .s d :: post)) :
+    d = max 0 (((cycleOf 0 pre : Nat) : τ) * tockAtRun (tockOr dflt tock0) ops + tockAtRun (tockOr dflt tock0) ops
           - realElapsed r0 (timerReadingsOf pre)) := by
-  rcases paceRun_cases clk fuel c tock0 ops n xs doist_timer_is_retro with ⟨h0, _⟩ | ⟨m, c', hm, _, hrun⟩
+  rcases paceRun_cases dflt clk fuel c tock0 ops n xs doist_timer_is_retro with ⟨h0, _⟩ | ⟨m, c', hm, _, hrun⟩
   · rw [h0] at hlog; cases hlog
   · rw [hrun] at hlog
     exact lossless_any_history clk fuel m c' _ n xs hm r0 pre post d hlog
 
 /-- scanning forms (exactly what the Python oracle evaluates on the real log) -/
-theorem never_early_scan {σ} (clk : Clock σ) (fuel : Nat) (c : σ) (tock0 : Option Int) (ops : List PreOp) (n : Nat) (xs : List Nat) :
-    NeverEarly (tockAtRun (tockOr tock0) ops) (paceRun clk fuel c tock0 ops n xs).run := by
-  rcases paceRun_cases clk fuel c tock0 ops n xs doist_timer_is_retro with ⟨h0, _⟩ | ⟨m, c', hm, _, hrun⟩
+theorem never_early_scan {σ} (dflt : τ) (clk : Clock τ σ) (fuel : Nat) (c : σ) (tock0 : Option τ) (ops : List (PreOp τ)) (n : Nat) (xs : List Nat) :
+    NeverEarly (tockAtRun (tockOr dflt tock0) ops) (paceRun dflt clk fuel c tock0 ops n xs).run := by
+  rcases paceRun_cases dflt clk fuel c tock0 ops n xs doist_timer_is_retro with ⟨h0, _⟩ | ⟨m, c', hm, _, hrun⟩
   · rw [h0]; trivial
   · rw [hrun]; exact doRun_neverEarly clk fuel m c' _ n xs hm
 
-theorem lossless_scan {σ} (clk : Clock σ) (fuel : Nat) (c : σ) (tock0 : Option Int) (ops : List PreOp) (n : Nat) (xs : List Nat) :
-    Lossless (tockAtRun (tockOr tock0) ops) (paceRun clk fuel c tock0 ops n xs).run := by
-  rcases paceRun_cases clk fuel c tock0 ops n xs doist_timer_is_retro with ⟨h0, _⟩ | ⟨m, c', hm, _, hrun⟩
+theorem lossless_scan {σ} (dflt : τ) (clk : Clock τ σ) (fuel : Nat) (c : σ) (tock0 : Option τ) (ops : List (PreOp τ)) (n : Nat) (xs : List Nat) :
+    Lossless (tockAtRun (tockOr dflt tock0) ops) (paceRun dflt clk fuel c tock0 ops n xs).run := by
+  rcases paceRun_cases dflt clk fuel c tock0 ops n xs doist_timer_is_retro with ⟨h0, _⟩ | ⟨m, c', hm, _, hrun⟩
   · rw [h0]; trivial
   · rw [hrun]; exact doRun_lossless clk fuel m c' _ n xs hm
+
+/-! ### the same theorems at the two concrete time types: `Int` (what the compiled driver runs and the correspondence
+compares; Mathlib's order/ring instances on `Int` unfold to the core ones the driver uses — the `example` checks it) and
+`Rat` (every rational clock reading, tock and overshoot, hence every finite double) -/
+example (a b : Int) : @max Int Int.instMax a b = @max Int LinearOrder.toMax a b := rfl
+
+theorem never_early_int {σ} (dflt : Int) (clk : Clock Int σ) (fuel : Nat) (c : σ) (tock0 : Option Int) (ops : List (PreOp Int))
+    (n : Nat) (xs : List Nat) (r0 : Int) (pre post : List (Ev Int)) (k : Nat)
+    (hlog : (paceRun dflt clk fuel c tock0 ops n xs).run = .t r0 :: (pre ++ .c k :: post)) (hk : 1 ≤ k) :
+    (k : Int) * tockAtRun (tockOr dflt tock0) ops ≤ realElapsed r0 (readingsOf pre) :=
+  never_early dflt clk fuel c tock0 ops n xs r0 pre post k hlog hk
+
+theorem never_early_rat {σ} (dflt : Rat) (clk : Clock Rat σ) (fuel : Nat) (c : σ) (tock0 : Option Rat) (ops : List (PreOp Rat))
+    (n : Nat) (xs : List Nat) (r0 : Rat) (pre post : List (Ev Rat)) (k : Nat)
+    (hlog : (paceRun dflt clk fuel c tock0 ops n xs).run = .t r0 :: (pre ++ .c k :: post)) (hk : 1 ≤ k) :
+    (k : Rat) * tockAtRun (tockOr dflt tock0) ops ≤ realElapsed r0 (readingsOf pre) :=
+  never_early dflt clk fuel c tock0 ops n xs r0 pre post k hlog hk
+
+theorem lossless_scan_int {σ} (dflt : Int) (clk : Clock Int σ) (fuel : Nat) (c : σ) (tock0 : Option Int) (ops : List (PreOp Int))
+    (n : Nat) (xs : List Nat) : Lossless (tockAtRun (tockOr dflt tock0) ops) (paceRun dflt clk fuel c tock0 ops n xs).run :=
+  lossless_scan dflt clk fuel c tock0 ops n xs
+
+theorem lossless_scan_rat {σ} (dflt : Rat) (clk : Clock Rat σ) (fuel : Nat) (c : σ) (tock0 : Option Rat) (ops : List (PreOp Rat))
+    (n : Nat) (xs : List Nat) : Lossless (tockAtRun (tockOr dflt tock0) ops) (paceRun dflt clk fuel c tock0 ops n xs).run :=
+  lossless_scan dflt clk fuel c tock0 ops n xs
 
 /-! Non-vacuity (tests, not claims): a concrete run on the harness's scripted clock — constructed at 0, clock stepped
 back by 100 before `do()`, tock reassigned from 8 to 10 after construction, the first sleep overshoots by 12 (so cycle 1
 is late and cycle 2 is due at once), a backward step of 7 while waiting in cycle 2; three cycles.  The hypotheses `hlog`
 of the theorems are satisfiable with `k = 2` and with a sleep in cycle 2, and the deadline of cycle 3 is still 30. -/
-def demoRun : List Ev :=
-  (paceRun scriptClock 50 ⟨0, [0, 0, -100, 0, 0, 0, 0, 0, -7, 0, 0, 0], [12]⟩ (some 8) [.setTock 10] 3 []).run
+def demoRun : List (Ev Int) :=
+  (paceRun (32 : Int) scriptClock 50 ⟨0, [0, 0, -100, 0, 0, 0, 0, 0, -7, 0, 0, 0], [12]⟩ (some 8) [.setTock 10] 3 []).run
 
 example : demoRun = [.t (-100), .c 0, .t (-100), .t (-100), .s 10, .t (-78), .c 1, .t (-78), .c 2,
     .t (-78), .t (-85), .s 8, .t (-77)] := by decide
 
 example : (2 : Int) * 10 ≤ realElapsed (-100) (readingsOf [.c 0, .t (-100), .t (-100), .s 10, .t (-78), .c 1, .t (-78)]) :=
-  never_early scriptClock 50 ⟨0, [0, 0, -100, 0, 0, 0, 0, 0, -7, 0, 0, 0], [12]⟩ (some 8) [.setTock 10] 3 [] (-100)
+  never_early (32 : Int) scriptClock 50 ⟨0, [0, 0, -100, 0, 0, 0, 0, 0, -7, 0, 0, 0], [12]⟩ (some 8) [.setTock 10] 3 [] (-100)
     [.c 0, .t (-100), .t (-100), .s 10, .t (-78), .c 1, .t (-78)] [.t (-78), .t (-85), .s 8, .t (-77)] 2 (by decide) (by decide)
 
 example : (8 : Int) = max 0 (((cycleOf 0 [.c 0, .t (-100), .t (-100), .s 10, .t (-78), .c 1, .t (-78), .c 2, .t (-78), .t (-85)] : Nat) : Int) * 10 + 10
     - realElapsed (-100) (timerReadingsOf [.c 0, .t (-100), .t (-100), .s 10, .t (-78), .c 1, .t (-78), .c 2, .t (-78), .t (-85)])) :=
-  lossless scriptClock 50 ⟨0, [0, 0, -100, 0, 0, 0, 0, 0, -7, 0, 0, 0], [12]⟩ (some 8) [.setTock 10] 3 [] (-100)
+  lossless (32 : Int) scriptClock 50 ⟨0, [0, 0, -100, 0, 0, 0, 0, 0, -7, 0, 0, 0], [12]⟩ (some 8) [.setTock 10] 3 [] (-100)
     [.c 0, .t (-100), .t (-100), .s 10, .t (-78), .c 1, .t (-78), .c 2, .t (-78), .t (-85)] [.t (-77)] 8 (by decide)
 
 end Hio.Timer
